@@ -9,7 +9,7 @@ PKG = "vdr/didnuts"
 HARNESS = ["vdr/didnuts/zz_verif_c09_test.go"]
 
 REQUIRED = ["accepted_create_sound", "accepted_create_signed_by_did_key", "accepted_update_sound",
-            "accepted_update_signed_by_controller_key", "callback_accepts_iff", "resolvable_only_if_accepted", "rejected_inert", "accepted_changes_own_did_only",
+            "accepted_update_signed_by_controller_key", "callback_accepts_iff", "reprocess_is_callback_again", "resolvable_only_if_accepted", "rejected_inert", "accepted_changes_own_did_only",
             "controller_chain_bounded", "controller_cycle_refused", "deactivated_controller_rejected",
             "controllers_never_deactivated", "controller_versions_are_active", "validator_rules_partial", "validator_rules_embedded_witness", "deactivated_controller_latest_witness", "removed_key_rejected", "removed_key_rejected_self_controlled",
             "validator_rules_sound_complete", "validator_rules_each_necessary",
@@ -143,6 +143,8 @@ def run(ctx):
         while k > 0 and not ops[k].startswith('{"op":"hist"'):
             k -= 1
         keep = [ops[k]]
+        if ops[i].startswith('{"op":"reprocess"'):
+            return "\n".join(ops[k:i + 1]) + "\n"   # the rejected deliveries are what a reprocess is about
         if any('"delayed":true' in ops[j] for j in range(k + 1, i + 1)):
             return "\n".join(ops[k:i + 1]) + "\n"   # delayed-VDR schedule: positions matter, keep everything
         for j in range(k + 1, i + 1):
@@ -154,7 +156,7 @@ def run(ctx):
     # ---- direct property oracles on the implementation's own outputs
     kinds, classes, labels = Counter(), Counter(), Counter()
     distinct = set()
-    n_pairs = n_ok = n_embedded_illformed = n_deactivated_controller = n_deactivated_after = n_dag = 0
+    n_pairs = n_ok = n_embedded_illformed = n_deactivated_controller = n_deactivated_after = n_dag = n_reprocess = n_reprocess_changed = 0
     dag_classes = Counter()
     scripted_outcomes = Counter()
     created = set()        # DIDs with an accepted creation in the current history
@@ -184,6 +186,29 @@ def run(ctx):
             created, deactivations = set(), {}
             labels[re.sub(r"\d+$", "N", op.get("label", "?")) + ("/callback-only" if op.get("noVerify") else "/verifier+callback")] += 1
             verified = hist_verified = not op.get("noVerify")
+            continue
+        if op["op"] == "reprocess":
+            n_reprocess += 1
+            mline = model[i] if i < len(model) else ""
+            m = re.match(r"reprocess \S+ \[([^\]]*)\] (.*)$", line)
+            if not m:
+                report("unparseable-line", "harness output line not understood", i)
+                continue
+            if "PANICS" in m.group(1):
+                report("reprocess-panics", "handleReprocessEvent panicked: " + m.group(1), i)
+            if m.group(2) != "=":
+                cur_obs = m.group(2)
+                bad_vm = stored_vm_mismatch(cur_obs)
+                if bad_vm:
+                    report("reprocess-stored-verification-method-id-is-not-its-key-thumbprint",
+                           "after REPROCESS a resolvable document holds a verification method whose id is not DID#thumbprint(its own key): " + bad_vm, i)
+            if "db-changed" in m.group(1):
+                n_reprocess_changed += 1
+                if "db-same" in mline:
+                    # reprocess = callback again: the model (callback replayed over the same transactions) changes nothing
+                    report("reprocess-makes-a-rejected-document-resolvable",
+                           "REPROCESS of the history's did+json transactions changed the DID store although replaying them through "
+                           "callback changes nothing: a document that was rejected when received became resolvable", i)
             continue
         if op["op"] == "verify":
             n_dag += 1
@@ -344,6 +369,7 @@ def run(ctx):
     ctx.cov["input_distribution"] = {"histories": sum(labels.values()), "history_kinds": dict(sorted(labels.items())),
                                      "pair_kinds": dict(sorted(kinds.items())), "outcome_classes": dict(sorted(classes.items())),
                                      "accepted": n_ok, "rejected": n_pairs - n_ok,
+                                     "reprocess_runs": n_reprocess, "reprocess_runs_that_changed_the_store": n_reprocess_changed,
                                      "delayed_vdr_dag_verdicts": dict(sorted(dag_classes.items())),
                                      "scripted_step_outcomes": dict(sorted(scripted_outcomes.items())),
                                      "accepted_update_by_deactivated_controller_after_its_deactivation(known finding)": n_deactivated_after,
